@@ -42,8 +42,25 @@ claim("C05",
       "Trusted: rustc MIR; tokio/parking_lot locks; guard released at Drop. Not decided: linearizability, return values, what a concurrent flush persisted.",
       "guard-liveness must-hold dataflow over MIR, call-graph effect classes, must-pass-through on success edges, who-may-call tables", "DESIGN §4 C05")
 
+claim("C07",
+      "Claims the CAS clause only: precondition-before-write on the Update edge, mismatch/missing token can never return Ok, fresh backend read inside the per-key section, create-iff-absent, "
+      "per-commit freshness of every e_tag/generation written into either Metadata type (taint from new_generation()/rand_bytes() through hashers, captures, uploader fields, the copy protocol), "
+      "and reported metadata taken from the commit point. Equivalence with a reference object store over call sequences is not decidable by static analysis and is not claimed.",
+      "Trusted: rustc MIR; SHA3 collision resistance; freshness of new_generation()/rand_bytes(). Not decided: reference-store equivalence, range arithmetic, precondition precedence, listings.",
+      "forward may-taint with &mut propagation (must-flow of fresh sources into token fields), Ok/Err-edge must-pass-through, who-reads-the-cache check", "DESIGN §4 C07")
+claim("C08",
+      "Decides the structure of the immutable-generation commit protocol: who may write meta/ and payload paths (path operands resolved to the path helpers; generation minted by new_generation()), "
+      "payload -> pointer -> reclaim ordering, in-flight guard liveness across the commit, collector deletes only on not-in-flight and not-referenced edges, single re-resolve on stale pointers.",
+      "Trusted: rustc MIR; atomic backend puts; moka per-key compute section. Not decided: byte-level old-or-new equality after each crash prefix, legacy migration content, cross-process races.",
+      "who-may-write table over sliced path operands, CFG ordering on Ok edges, guard-liveness dataflow, constant-flag path sensitivity", "DESIGN §4 C08")
+claim("C09",
+      "Decides AAD completeness against the Metadata type definition, AAD/nonce/tag provenance of every AEAD call, verify-before-use dominance on all read and reuse paths, nonce freshness and counter "
+      "advance, plaintext confinement (no direct flow of the caller payload into a backend write; encrypting loop dominates each write; MetaStore as positive control), and that no AEAD/verify Result is dropped.",
+      "Trusted: rustc MIR; AES-GCM; rand_bytes(). Not decided: cryptographic and byte-level tamper outcomes, truncation arithmetic, that every chunk (not only the loop) is encrypted.",
+      "table agreement (ADT fields vs fields read), backward slicing of AEAD operands, dominance, forward taint, error-discipline check", "DESIGN §4 C09")
+
 _pending = "rules for this property are not built yet in this round (see DESIGN §10 order of work); not claimed until they are"
-for pid in ["C07", "C08", "C09", "C10", "C11", "C12", "C13", "C14", "C15", "C16", "C17", "C18", "C19"]:
+for pid in ["C10", "C11", "C12", "C13", "C14", "C15", "C16", "C17", "C18", "C19"]:
     NA[pid] = _pending
 NA["C20"] = ("every clause is an algebraic law over runtime multisets of assertions (permutation invariance, monotone score fold, thresholds); "
              "no clause is visible in the shape of the code, so static analysis cannot decide it (DESIGN §6)")
